@@ -261,7 +261,7 @@ def check_wicks(ctx, expr, label, rules_blocks=None):
 
 def run(ctx):
     rng = ctx.rng
-    n = ctx.pick(300, 8000)
+    n = ctx.pick(600, 8000)
     for it in range(n):
         expr, gen_no = random_product(ctx)
         if expr == 0:
